@@ -45,6 +45,7 @@ namespace bxdecay0 {
 
   void Xe131m(i_random & prng_, event & event_, const double tcnuc_, double & tdnuc_)
   {
+    BXDECAY0_VERIF_SCOPE("scheme:Xe131m", tcnuc_);
     // double t;
     double tdlev;
     double tclev;
